@@ -14,6 +14,8 @@ ASSUMPTIONS = ["head assignment = one symbolic head index per constituent, then 
                "so items that were gapped over return in reversed order; the golden sequence of tests/test_transitions.py "
                "replays to its tree only under this variant (order-preserving flush rebuilds another tree from it)",
                "all shapes E1(m, n) inside the bound, incl. one-token sentences and unary chains at the root and above tokens"]
+ASSUMPTIONS += ["the tree handed to the oracle is fresh, or was written by the export or TIGER-XML writer before, or went through "
+                "collapse_unary_chains / uncollapse_unary_chains before (selector hist; tied to other selectors for the larger shapes)"]
 OUTSIDE = ["larger trees"]
 
 
@@ -164,10 +166,26 @@ def heads_ok(m, n, ip, lp, hs):
 SYS = ["gap", "topdown", "inorder", "inorder-nary"]
 
 
-def replay(m, n, sy, pos, **kw):
+HIST = ["fresh tree", "tree was written by the export writer before", "tree was written by the TIGER-XML writer before",
+        "tree went through collapse_unary_chains / uncollapse_unary_chains before"]
+
+
+def replay(m, n, sy, pos, hist=0, **kw):
     stubs.install()
     ip, lp = e1_get(kw, m, n)
-    nodes, leaves = build_e1(m, n, ip, lp, labels=["VROOT", "NP", "S", "VP"][:m])
+    labels = ["VROOT", "NP", "S", "VP"][:m]
+    nodes, leaves = build_e1(m, n, ip, lp, labels=labels)
+    if hist in (1, 2):
+        from trees import treeoutput
+        sink = stubs.Sink()
+        (treeoutput.export if hist == 1 else treeoutput.tigerxml)(nodes[0], sink)
+    elif hist == 3:
+        root = transform.uncollapse_unary_chains(transform.collapse_unary_chains(nodes[0]))
+        bylabel = dict((x.data['label'], x) for x in all_nodes(root) if x.children)
+        if sorted(bylabel) != sorted(labels) or root.parent is not None:
+            return "collapse/uncollapse does not restore the constituents: %r" % sorted(bylabel)
+        nodes = [bylabel[l] for l in labels]
+        leaves = sorted((x for x in all_nodes(root) if not x.children), key=lambda x: x.data['num'])
     for i, nd in enumerate(nodes):
         for j, c in enumerate(kids(nd)):
             c.data['head'] = (j == kw["h%d" % i])
@@ -241,7 +259,7 @@ def conds(tier):
         hpre = "_h.heads_ok(%d, %d, [%s], [%s], [%s])" % (m, n, ipn, lpn, ", ".join("h%d" % i for i in range(m)))
         cpre = "_h.cont_ok(%d, %d, [%s], [%s], sy)" % (m, n, ipn, lpn)
         sh = ["sy"] + (["lp1"] if m * n >= 9 else []) + (["lp2"] if m * n >= 12 else [])
-        cs.append(Cond("replay-m%d-n%d" % (m, n), "harness.c10:replay", e1_params(m, n) + hs + [P("sy", "int", 0, 4), P("pos", "bool")],
-                       fixed={"m": m, "n": n}, pre=[e1_wf_expr(m, n), hpre, cpre], shard=sh, timeout=600 if q else 3000,
+        cs.append(Cond("replay-m%d-n%d" % (m, n), "harness.c10:replay", e1_params(m, n) + hs + [P("sy", "int", 0, 4), P("pos", "bool"), P("hist", "int", 0, 4)],
+                       fixed={"m": m, "n": n}, pre=[e1_wf_expr(m, n), hpre, cpre] + (["hist == (lp1 + h0 + (1 if pos else 0)) % 4"] if m * n >= 6 else []), shard=sh, timeout=600 if q else 3000,
                        functions=FUNCS))
     return cs
